@@ -394,9 +394,171 @@ def boundary_part(ctx):
     ctx.extra['boundary_cases'] = len(cases)
 
 
+# ---------------------------------------------------------------- DQM: every argument position of every mutator / getter
+
+DQM_MK = ("def mk():\n    m = dimod.DiscreteQuadraticModel(); m.add_variable(3, 'a'); m.add_variable(2, 'b'); m.add_variable(4, 'c')\n"
+          "    m.set_linear('a', [1., 2., 3.]); m.set_quadratic('a', 'b', {(0, 1): 1.5, (2, 0): -0.5}); m.set_quadratic_case('b', 1, 'c', 3, 2.0)\n"
+          "    return m\n")
+# the labelled view *and* the native content (case-level vectors, counts, adjacency): a write that is not recorded in the
+# variable adjacency is invisible to get_quadratic but not to to_numpy_vectors / num_case_interactions
+DQM_STATE = ("def dq_state(m):\n    L = list(m.variables)\n    cs, lb, (ir, ic, qb), lab, off = m.to_numpy_vectors(return_offset=True)\n"
+             "    return (L, [list(map(float, m.get_linear(v))) for v in L],\n"
+             "            sorted((repr(u), repr(v), sorted(m.get_quadratic(u, v).items())) for u in L for v in m.adj[u] if L.index(u) < L.index(v)),\n"
+             "            float(m.offset), m.num_cases(), m.num_case_interactions(), m.num_variable_interactions(), {repr(u): sorted(map(repr, m.adj[u])) for u in L},\n"
+             "            list(map(int, cs)), list(map(float, lb)), sorted(zip(map(int, ir), map(int, ic), map(float, qb))))\n")
+DQM_NC = {'a': 3, 'b': 2, 'c': 4}
+DQM_BADV = ["'zz'", '-1', '99', 'None']
+
+
+def dqm_sweep_cases():
+    """(site, input class, call source, must_raise): fresh model `m` (a: 3 cases, b: 2, c: 4; a-b and b-c interact).
+    Every argument position of every DQM mutator / getter gets an unknown variable, a negative and a too-large case,
+    for the first and for the second variable / case, in both variable orders.  must_raise: the call is invalid by the
+    documented contract, so returning normally is a finding; raising and changing anything (also natively) is one too."""
+    out = []
+    def add(site, cls, call, must=True):
+        out.append((site, cls, call, must))
+    def badc(v):
+        return ['-1', '-7', str(DQM_NC[v]), '99']
+    def kind(c):
+        return 'negative case' if c.startswith('-') else 'too-large case'
+    for l in DQM_BADV:
+        for f in ('get_linear', 'get_cases', 'num_cases', 'degree'):
+            if f in ('num_cases', 'get_cases') and l == 'None':
+                continue          # num_cases(None) is the documented "all variables" form (get_cases is range(num_cases(v)))
+            add(f'DQM.{f} variable', f'variable {l}', f'm.{f}({l})')
+        add('DQM.get_linear_case variable', f'variable {l}', f'm.get_linear_case({l}, 0)')
+        add('DQM.set_linear variable', f'variable {l}', f'm.set_linear({l}, [1., 2.])')
+        add('DQM.set_linear_case variable', f'variable {l}', f'm.set_linear_case({l}, 0, 1.0)')
+        for arr in ('', ', array=True'):
+            add('DQM.get_quadratic first variable', f'variable {l}{arr}', f"m.get_quadratic({l}, 'b'{arr})")
+            add('DQM.get_quadratic second variable', f'variable {l}{arr}', f"m.get_quadratic('a', {l}{arr})")
+        add('DQM.get_quadratic_case first variable', f'variable {l}', f"m.get_quadratic_case({l}, 0, 'b', 0)")
+        add('DQM.get_quadratic_case second variable', f'variable {l}', f"m.get_quadratic_case('a', 0, {l}, 0)")
+        add('DQM.set_quadratic_case first variable', f'variable {l}', f"m.set_quadratic_case({l}, 0, 'b', 0, 1.0)")
+        add('DQM.set_quadratic_case second variable', f'variable {l}', f"m.set_quadratic_case('a', 0, {l}, 0, 1.0)")
+        add('DQM.set_quadratic(dict) first variable', f'variable {l}', f"m.set_quadratic({l}, 'b', {{(0, 0): 1.0}})")
+        add('DQM.set_quadratic(dict) second variable', f'variable {l}', f"m.set_quadratic('a', {l}, {{(0, 0): 1.0}})")
+        add('DQM.set_quadratic(dense) first variable', f'variable {l}', f"m.set_quadratic({l}, 'b', np.ones((3, 2)))")
+        add('DQM.set_quadratic(dense) second variable', f'variable {l}', f"m.set_quadratic('a', {l}, np.ones((3, 2)))")
+    for v in 'abc':
+        for c in badc(v):
+            add('DQM.get_linear_case case', f'{v}: {kind(c)}', f"m.get_linear_case('{v}', {c})")
+            add('DQM.set_linear_case case', f'{v}: {kind(c)}', f"m.set_linear_case('{v}', {c}, 1.0)")
+        n = DQM_NC[v]
+        for k in (n - 1, n + 1, 0):
+            add('DQM.set_linear length', f'{v}: {k} biases', f"m.set_linear('{v}', {[1.0] * k})")
+    for u, v in (('a', 'b'), ('b', 'a'), ('b', 'c'), ('c', 'b'), ('a', 'c'), ('c', 'a')):
+        linked = {u, v} != {'a', 'c'}
+        for c in badc(u):
+            add('DQM.set_quadratic_case first case', f'({u},{v}): {kind(c)}', f"m.set_quadratic_case('{u}', {c}, '{v}', 0, 1.0)")
+            add('DQM.set_quadratic(dict) first case', f'({u},{v}): {kind(c)}', f"m.set_quadratic('{u}', '{v}', {{({c}, 0): 7.0}})")
+            add('DQM.set_quadratic(dict) first case after a valid entry', f'({u},{v}): {kind(c)}', f"m.set_quadratic('{u}', '{v}', {{(0, 0): 1.0, ({c}, 0): 7.0}})")
+            if linked:
+                add('DQM.get_quadratic_case first case', f'({u},{v}): {kind(c)}', f"m.get_quadratic_case('{u}', {c}, '{v}', 0)")
+        for c in badc(v):
+            add('DQM.set_quadratic_case second case', f'({u},{v}): {kind(c)}', f"m.set_quadratic_case('{u}', 0, '{v}', {c}, 1.0)")
+            add('DQM.set_quadratic(dict) second case', f'({u},{v}): {kind(c)}', f"m.set_quadratic('{u}', '{v}', {{(0, {c}): 7.0}})")
+            add('DQM.set_quadratic(dict) second case after a valid entry', f'({u},{v}): {kind(c)}', f"m.set_quadratic('{u}', '{v}', {{(0, 0): 1.0, (0, {c}): 7.0}})")
+            if linked:
+                add('DQM.get_quadratic_case second case', f'({u},{v}): {kind(c)}', f"m.get_quadratic_case('{u}', 0, '{v}', {c})")
+        nu, nv = DQM_NC[u], DQM_NC[v]
+        for shp in (f'({nu}, {nv + 1})', f'({nu + 1}, {nv})', f'({nu * nv + 1},)', f'({nu}, {nv}, 2)'):
+            add('DQM.set_quadratic(dense) shape', f'({u},{v}): shape {shp}', f"m.set_quadratic('{u}', '{v}', np.ones({shp}))")
+        add('DQM.set_quadratic(dict) malformed key', f'({u},{v})', f"m.set_quadratic('{u}', '{v}', {{(0,): 1.0}})")
+        add('DQM.set_quadratic(dict) malformed bias', f'({u},{v})', f"m.set_quadratic('{u}', '{v}', {{(0, 0): 1.0, (0, 1): 'x'}})")
+    for v in 'abc':
+        add('DQM.set_quadratic same variable', f'{v}', f"m.set_quadratic('{v}', '{v}', {{(0, 1): 1.0}})")
+        add('DQM.set_quadratic_case same variable', f'{v}', f"m.set_quadratic_case('{v}', 0, '{v}', 1, 1.0)")
+    add('DQM.get_quadratic no interaction', '(a,c)', "m.get_quadratic('a', 'c')")
+    add('DQM.get_quadratic no interaction', '(c,a) array', "m.get_quadratic('c', 'a', array=True)")
+    return out
+
+
+DQM_BATCH = '''import json, sys, warnings
+warnings.simplefilter('ignore')
+import numpy as np, dimod
+%(mk)s
+%(state)s
+calls = %(calls)r
+out = []
+for i, call in enumerate(calls):
+    m = mk()
+    before = dq_state(m)
+    raised = None
+    print('@' + str(i), flush=True)          # progress marker: a crash is attributed to the call after the last marker
+    try:
+        exec(call)
+    except BaseException as e:
+        raised = type(e).__name__ + ': ' + str(e)[:160]
+    try:
+        after = dq_state(m)
+    except BaseException as e:
+        out.append(dict(result='unreadable', raised=raised, what=type(e).__name__ + ': ' + str(e)[:160])); continue
+    if repr(after) != repr(before) and raised is not None:
+        out.append(dict(result='changed', raised=raised, before=repr(before)[:700], after=repr(after)[:700]))
+    else:
+        out.append(dict(result='raised' if raised else 'accepted', raised=raised, changed=repr(after) != repr(before)))
+print('RESULT ' + json.dumps(out))
+'''
+
+
+def dqm_sweep_part(ctx):
+    import time
+    t0 = time.time()
+    cases = dqm_sweep_cases()
+    env = dict(os.environ)
+    def run_batch(chunk):
+        src = DQM_BATCH % dict(mk=DQM_MK, state=DQM_STATE, calls=[c[2] for c in chunk])
+        try:
+            p = subprocess.run([PY, '-c', src], capture_output=True, text=True, timeout=300, env=env)
+        except subprocess.TimeoutExpired:
+            return src, None, 'timeout'
+        lines = p.stdout.strip().splitlines()
+        if p.returncode == 0 and lines and lines[-1].startswith('RESULT '):
+            return src, json.loads(lines[-1][7:]), None
+        last = max([int(x[1:]) for x in lines if x.startswith('@')] or [0])
+        return src, None, f'child process exited {p.returncode} during call #{last} `{chunk[last][2]}`: {p.stderr[-300:]}'
+    chunks = [cases[i::4] for i in range(4)]
+    with ThreadPoolExecutor(max_workers=4) as ex:
+        batches = list(ex.map(run_batch, chunks))
+    for chunk, (src, results, err) in zip(chunks, batches):
+        if results is None:
+            # a call of this batch killed the child: run the calls of the batch one by one
+            with ThreadPoolExecutor(max_workers=4) as ex:
+                singles = list(ex.map(lambda c: run_batch([c]), chunk))
+            results = []
+            for c, (s1, r1, e1) in zip(chunk, singles):
+                if r1 is None:
+                    ctx.fail('crash', c[0], c[1], f'`{c[2]}` on a fresh DQM: {e1}',
+                             repro="import subprocess, sys\nsrc = %r\np = subprocess.run([sys.executable, '-c', src], capture_output=True, text=True)\nprint(p.stdout[-800:], p.stderr[-800:]); assert p.returncode == 0\n" % (s1,))
+                    results.append(dict(result='crash'))
+                else:
+                    results.append(r1[0])
+        for (site, cls, call, must), res in zip(chunk, results):
+            ctx.case(('dqm-sweep', call), nontrivial=True)
+            ctx.tick('dqm_sweep:' + res['result'])
+            repro = (DQM_MK + DQM_STATE + f"import dimod, numpy as np\nm = mk(); before = dq_state(m); raised = None\ntry:\n    {call}\nexcept Exception as e:\n    raised = e\n"
+                     "print('raised', repr(raised)); print(before); print(dq_state(m))\n"
+                     + ("assert raised is not None, 'accepted an invalid call'\n" if must else '') + "assert raised is None or dq_state(m) == before, 'changed on raise'\n")
+            repro = 'import dimod, numpy as np\n' + repro
+            if res['result'] == 'changed':
+                ctx.fail('property', site, cls + ' (changed on raise)', f'`{call}` raised {res["raised"]} but changed the model (labelled or native state): '
+                         f'{res["before"]} -> {res["after"]}', repro=repro, detail=res)
+            elif res['result'] == 'unreadable':
+                ctx.fail('property', site, cls + ' (model unreadable afterwards)', f'`{call}` ({"raised " + res["raised"] if res["raised"] else "returned"}); '
+                         f'reading the model back: {res["what"]}', repro=repro, detail=res)
+            elif res['result'] == 'accepted' and must:
+                ctx.fail('property', site, cls + ' (accepted an invalid call)', f'`{call}` returned normally'
+                         + (' and changed the model' if res.get('changed') else ''), repro=repro, detail=res)
+    ctx.extra['dqm_sweep_seconds'] = round(time.time() - t0, 1)
+    ctx.extra['dqm_sweep_cases'] = len(cases)
+
+
 def run(ctx):
     ctx.rule = ('(i) random sequences of VALID calls on the C++ header API (ASan+UBSan+assertions), one case per op: invariants on the '
                 'printed state, const API consistency, Lean model; (ii) one malformed Python call per child process on fresh objects; '
                 'non-trivial = all (every op changes or probes a state; every malformed call exercises a rejection path)')
     cpp_part(ctx)
     boundary_part(ctx)
+    dqm_sweep_part(ctx)
